@@ -163,7 +163,7 @@ CHECKS = {
           "full rate from any synchronised handle stays truthful over ANY number of intact packets, whatever the page layout (Sync_lemmas.v); (3) ov_pcm_seek at full rate "
           "from ANY opened handle: when the page seek succeeds without the continued-packet fallback and the packets from the landing point form an intact run of "
           "the link reaching the target, it returns 0, reports EXACTLY the target and leaves a truthful state - quiet decoder whose next packet ends at the reported "
-          "position, or pending samples that are the samples at the reported position (Seek_lemmas.v: invariants of the packet-discarding and the sample-discarding "
+          "position, or pending samples that are the samples at the reported position (4) ov_pcm_seek_page under the same hypotheses reports the position where the first following packet ends and the next fetch leaves the handle in sync there (Seek_lemmas.v: invariants of the packet-discarding and the sample-discarding "
           "loop by induction, the landing facts of ov_pcm_seek_page derived, hypotheses packaged as the executable test seek_hyps). The per-run check evaluates "
           "seek_hyps in the extracted model for every sample seek it performs (it held for 30-55 % of them) and demands success and position = target from the "
           "real code there. NOT theorems: raw seeks and page-granularity seeks' landing positions, the continued-packet fallback, seeks finishing inside the last "
@@ -175,7 +175,9 @@ CHECKS = {
  "C08": {
   "category": "proof",
   "text": "Proved on VFile.v: out-of-range arguments are rejected with the state untouched; the page a page-granularity seek lands on is the LAST page of the "
-          "link (in the search range) whose granule position is set and below the target; link selection. Exact landing for EVERY target 0..L of small chained "
+          "link (in the search range) whose granule position is set and below the target; link selection; a successful page seek lands inside the selected "
+          "link at or before the target for ANY page table; the sample-accurate seek lands EXACTLY on the target whenever the executable hypotheses seek_hyps hold "
+          "(intact run from the landing point reaching the target, full rate; evaluated per run for every sample seek). Exact landing for EVERY target 0..L of small chained "
           "files (after random prior ops), time seeks, and end-of-file behaviour are checked on each run against the model and the property itself.",
   "note": VF_NOTE,
   "technique": "Coq proof (landing page maximality, argument validation) + exhaustive-target correspondence vs lib/vorbisfile.c",
